@@ -66,6 +66,9 @@ pub enum COp {
     EmitCT { target: bool, sys: bool },
     EmitE1 { mode: ModeS, sys: bool },
     EmitT1 { mode: ModeS, sys: bool },
+    /// Independent server event / trigger (sent at once, not tied to replication).
+    EmitEI { mode: ModeS, sys: bool },
+    EmitTI { mode: ModeS, sys: bool },
 }
 
 impl COp {
@@ -83,6 +86,8 @@ impl COp {
             ),
             COp::EmitE1 { mode, sys } => format!("emit server event {mode:?}{}", if *sys { " from Update" } else { "" }),
             COp::EmitT1 { mode, sys } => format!("emit server trigger {mode:?}{}", if *sys { " from Update" } else { "" }),
+            COp::EmitEI { mode, sys } => format!("emit independent server event {mode:?}{}", if *sys { " from Update" } else { "" }),
+            COp::EmitTI { mode, sys } => format!("emit independent server trigger {mode:?}{}", if *sys { " from Update" } else { "" }),
         }
     }
 }
@@ -97,6 +102,8 @@ enum PEmit {
     CT(Seq, Option<Entity>),
     E1(Seq, SendMode),
     T1(Seq, SendMode),
+    EI(Seq, SendMode),
+    TI(Seq, SendMode),
 }
 #[derive(Resource, Default)]
 struct PendingEmits(Vec<PEmit>);
@@ -127,6 +134,10 @@ fn emit(commands: &mut Commands, e: PEmit) {
             commands.send_event(ToClients { mode, event: E1(s) });
         }
         PEmit::T1(s, mode) => commands.server_trigger(ToClients { mode, event: T1(s) }),
+        PEmit::EI(s, mode) => {
+            commands.send_event(ToClients { mode, event: EI(s) });
+        }
+        PEmit::TI(s, mode) => commands.server_trigger(ToClients { mode, event: TI(s) }),
     }
 }
 
@@ -214,7 +225,7 @@ impl C13Cell {
                 }
             }
             COp::EmitC1 { .. } | COp::EmitCT { .. } => true,
-            COp::EmitE1 { mode, .. } | COp::EmitT1 { mode, .. } => match mode {
+            COp::EmitE1 { mode, .. } | COp::EmitT1 { mode, .. } | COp::EmitEI { mode, .. } | COp::EmitTI { mode, .. } => match mode {
                 ModeS::ExceptRemote | ModeS::DirectRemote => running && x.remote.is_some(),
                 _ => true,
             },
@@ -280,8 +291,14 @@ impl C13Cell {
         }
         let running = Self::running(x);
         let sent: Vec<_> = x.app.world_mut().resource_mut::<RepliconServer>().drain_sent().collect();
-        for (_e, _ch, bytes) in sent {
+        for (dest, _ch, bytes) in sent {
             bytes[..].hash(&mut x.trace);
+            if Some(dest) != x.remote {
+                return Err(self.v(
+                    "sent-to-nobody",
+                    format!("the app queued a server message for {dest}, which is not a connected client"),
+                ));
+            }
             if !running {
                 return Err(self.v(
                     "sent-without-connection",
@@ -611,6 +628,24 @@ impl Scenario for C13Cell {
                     x.app.world_mut().server_trigger(ToClients { mode: m, event: T1(s) });
                 }
             }
+            COp::EmitEI { mode, sys } => {
+                let s = new_emission(x, SK::EI.tag(), false, recipients(mode));
+                let m = send_mode(mode);
+                if sys {
+                    x.app.world_mut().resource_mut::<PendingEmits>().0.push(PEmit::EI(s, m));
+                } else {
+                    x.app.world_mut().send_event(ToClients { mode: m, event: EI(s) });
+                }
+            }
+            COp::EmitTI { mode, sys } => {
+                let s = new_emission(x, SK::TI.tag(), false, recipients(mode));
+                let m = send_mode(mode);
+                if sys {
+                    x.app.world_mut().resource_mut::<PendingEmits>().0.push(PEmit::TI(s, m));
+                } else {
+                    x.app.world_mut().server_trigger(ToClients { mode: m, event: TI(s) });
+                }
+            }
         }
         x.round += 1;
         self.frame(x)
@@ -711,6 +746,28 @@ pub fn cells(tier: Tier) -> Vec<CellPlan> {
                 rotation: rot,
                 alphabet: server_ops.clone(),
                 rounds: if q { 3 } else { 4 },
+                closure_frames: 8,
+            },
+            0,
+            1.0,
+        ));
+        v.push(plan(
+            C13Cell {
+                name: format!("c13-independent-{tag}"),
+                build: Build::Full,
+                rotation: rot,
+                alphabet: vec![
+                    COp::Nop,
+                    COp::StartServer,
+                    COp::StopServer { late: true },
+                    COp::EmitEI { mode: ModeS::Broadcast, sys: false },
+                    COp::EmitEI { mode: ModeS::DirectServer, sys: true },
+                    COp::EmitEI { mode: ModeS::ExceptServer, sys: false },
+                    COp::EmitTI { mode: ModeS::DirectServer, sys: false },
+                    COp::EmitTI { mode: ModeS::DirectRemote, sys: true },
+                    COp::EmitE1 { mode: ModeS::DirectServer, sys: false },
+                ],
+                rounds: if q { 4 } else { 5 },
                 closure_frames: 8,
             },
             0,
